@@ -689,6 +689,80 @@ theorem C16_opening_le_src_le_closing_list (w h : Nat) (ker : List Int) (ks cy c
       exact erodeP_congr (imagePts w h) (nbK ker ks cy cx) _ _ _ (eD _ hp) eD
     rw [e, hsrc]; exact L.2
 
+private theorem opening_pts (w h : Nat) (ker : List Int) (ks cy cx : Nat) (plane : List Int) (q : Int × Int) (hq : q ∈ imagePts w h) :
+    imgFn w (opening w h ker ks cy cx plane) q.1 q.2
+      = dilateP (imagePts w h) (nbK ker ks cy cx) (erodeP (imagePts w h) (nbK ker ks cy cx) (fun p => imgFn w plane p.1 p.2)) q
+    ∧ imgFn w (closing w h ker ks cy cx plane) q.1 q.2
+      = erodeP (imagePts w h) (nbK ker ks cy cx) (dilateP (imagePts w h) (nbK ker ks cy cx) (fun p => imgFn w plane p.1 p.2)) q := by
+  have eE : ∀ q ∈ imagePts w h, imgFn w (morph w h ker ks cy cx false plane) q.1 q.2
+      = erodeP (imagePts w h) (nbK ker ks cy cx) (fun p => imgFn w plane p.1 p.2) q :=
+    fun q hq => (imgFn_morph w h ker ks cy cx false plane q hq).trans (erodeFn_eq w h ker ks cy cx (imgFn w plane) q hq)
+  have eD : ∀ q ∈ imagePts w h, imgFn w (morph w h ker ks cy cx true plane) q.1 q.2
+      = dilateP (imagePts w h) (nbK ker ks cy cx) (fun p => imgFn w plane p.1 p.2) q :=
+    fun q hq => (imgFn_morph w h ker ks cy cx true plane q hq).trans (dilateFn_eq w h ker ks cy cx (imgFn w plane) q hq)
+  constructor
+  · show imgFn w (morph w h ker ks cy cx true (morph w h ker ks cy cx false plane)) q.1 q.2 = _
+    exact ((imgFn_morph w h ker ks cy cx true _ q hq).trans (dilateFn_eq w h ker ks cy cx _ q hq)).trans
+      (dilateP_congr (imagePts w h) (nbK ker ks cy cx) _ _ q (eE q hq) eE)
+  · show imgFn w (morph w h ker ks cy cx false (morph w h ker ks cy cx true plane)) q.1 q.2 = _
+    exact ((imgFn_morph w h ker ks cy cx false _ q hq).trans (erodeFn_eq w h ker ks cy cx _ q hq)).trans
+      (erodeP_congr (imagePts w h) (nbK ker ks cy cx) _ _ q (eD q hq) eD)
+
+private theorem list_eq_of_imgFn (w h : Nat) (a b : List Int) (ha : a.length = h * w) (hb : b.length = h * w)
+    (hpt : ∀ q ∈ imagePts w h, imgFn w a q.1 q.2 = imgFn w b q.1 q.2) : a = b := by
+  apply List.ext_getElem (by rw [ha, hb])
+  intro i h1 h2
+  have hw : 0 < w := by
+    rcases Nat.eq_zero_or_pos w with h0 | h0
+    · subst h0; simp at ha; omega
+    · exact h0
+  have hi : i < h * w := by omega
+  have hx : i % w < w := Nat.mod_lt _ hw
+  have hy : i / w < h := (Nat.div_lt_iff_lt_mul hw).mpr hi
+  have hidx : i / w * w + i % w = i := by rw [Nat.mul_comm]; exact Nat.div_add_mod i w
+  generalize i % w = xx at hx hidx
+  generalize i / w = yy at hy hidx
+  have := hpt (((xx : Nat) : Int), ((yy : Nat) : Int)) ((mem_imagePts w h _).mpr ⟨by simp only; omega, by simp only; omega, by simp only; omega, by simp only; omega⟩)
+  unfold imgFn at this
+  simp only at this
+  rw [if_pos ⟨by omega, by omega⟩, if_pos ⟨by omega, by omega⟩] at this
+  simp only [Int.toNat_natCast, hidx] at this
+  rw [List.getD_eq_getElem?_getD, List.getD_eq_getElem?_getD, List.getElem?_eq_getElem h1, List.getElem?_eq_getElem h2] at this
+  simpa using this
+
+/-- idempotence of `opening` and `closing` as functions on row-major planes (what the model returns and, by the correspondence run, the
+    real functions): point-symmetric structuring element, every image size -/
+theorem C16_open_close_idempotent_list (w h : Nat) (ker : List Int) (ks cy cx : Nat) (plane : List Int)
+    (hsym : ∀ r c, r < ks → c < ks → ker.getD (r * ks + c) 0 ≠ 0 →
+      2 * cy - r < ks ∧ 2 * cx - c < ks ∧ r ≤ 2 * cy ∧ c ≤ 2 * cx ∧ ker.getD ((2 * cy - r) * ks + (2 * cx - c)) 0 ≠ 0) :
+    opening w h ker ks cy cx (opening w h ker ks cy cx plane) = opening w h ker ks cy cx plane
+    ∧ closing w h ker ks cy cx (closing w h ker ks cy cx plane) = closing w h ker ks cy cx plane := by
+  have hs : ∀ p q, p ∈ imagePts w h → q ∈ imagePts w h → nbK ker ks cy cx p q = nbK ker ks cy cx q p :=
+    fun p q _ _ => C16_symmetric_se ker ks cy cx hsym p q
+  have lenO : ∀ p, (opening w h ker ks cy cx p).length = h * w := fun p => (C16_morph_list w h ker ks cy cx true _).1
+  have lenC : ∀ p, (closing w h ker ks cy cx p).length = h * w := fun p => (C16_morph_list w h ker ks cy cx false _).1
+  constructor
+  · apply list_eq_of_imgFn w h _ _ (lenO _) (lenO _)
+    intro q hq
+    have O1 := fun q hq => (opening_pts w h ker ks cy cx plane q hq).1
+    rw [(opening_pts w h ker ks cy cx (opening w h ker ks cy cx plane) q hq).1, O1 q hq]
+    have inner : ∀ r ∈ imagePts w h, erodeP (imagePts w h) (nbK ker ks cy cx) (fun p => imgFn w (opening w h ker ks cy cx plane) p.1 p.2) r
+        = erodeP (imagePts w h) (nbK ker ks cy cx) (dilateP (imagePts w h) (nbK ker ks cy cx)
+            (erodeP (imagePts w h) (nbK ker ks cy cx) (fun p => imgFn w plane p.1 p.2))) r :=
+      fun r hr => erodeP_congr (imagePts w h) (nbK ker ks cy cx) _ _ r (O1 r hr) O1
+    rw [dilateP_congr (imagePts w h) (nbK ker ks cy cx) _ _ q (inner q hq) inner]
+    exact (C16_open_close_idempotent (imagePts w h) (nbK ker ks cy cx) (fun p => imgFn w plane p.1 p.2) hs q hq).1
+  · apply list_eq_of_imgFn w h _ _ (lenC _) (lenC _)
+    intro q hq
+    have C1 := fun q hq => (opening_pts w h ker ks cy cx plane q hq).2
+    rw [(opening_pts w h ker ks cy cx (closing w h ker ks cy cx plane) q hq).2, C1 q hq]
+    have inner : ∀ r ∈ imagePts w h, dilateP (imagePts w h) (nbK ker ks cy cx) (fun p => imgFn w (closing w h ker ks cy cx plane) p.1 p.2) r
+        = dilateP (imagePts w h) (nbK ker ks cy cx) (erodeP (imagePts w h) (nbK ker ks cy cx)
+            (dilateP (imagePts w h) (nbK ker ks cy cx) (fun p => imgFn w plane p.1 p.2))) r :=
+      fun r hr => dilateP_congr (imagePts w h) (nbK ker ks cy cx) _ _ r (C1 r hr) C1
+    rw [erodeP_congr (imagePts w h) (nbK ker ks cy cx) _ _ q (inner q hq) inner]
+    exact (C16_open_close_idempotent (imagePts w h) (nbK ker ks cy cx) (fun p => imgFn w plane p.1 p.2) hs q hq).2
+
 /-- erode^n ≤ src ≤ dilate^n for the row-major planes `erode` / `dilate` return: ANY structuring element, any number of iterations,
     every image size, every pixel -/
 theorem C16_erode_le_src_le_dilate_list (w h : Nat) (ker : List Int) (ks cy cx n : Nat) (plane : List Int)
